@@ -183,10 +183,10 @@ Proof. vm_compute. repeat split. Qed.
    Model/Builder.v; the harness parses into such an arena) the store stays good, no slot generation moves, every node that was
    there keeps its value, and no adjacent text nodes appear. *)
 Theorem C04_parse_keeps_store_good :
-  forall bi st t srclen ts p, Good st -> free st = [] ->
-    parse_document bi t (N.of_nat (length (stamps st))) srclen ts = BOk p ->
+  forall bi bom st t srclen ts p, Good st -> free st = [] ->
+    parse_document_at bi bom t (N.of_nat (length (stamps st))) srclen ts = BOk p ->
     Ext st (parse_into st p) /\ (noadj st -> noadj (parse_into st p)) /\ cons (parse_into st p) = cons st.
-Proof. intros bi st t srclen ts p G Hf Hp. apply Ext_parse_into; [exact G|exact Hf|]. exact (parse_document_sound bi _ _ _ _ _ Hp). Qed.
+Proof. intros bi bom st t srclen ts p G Hf Hp. apply Ext_parse_into; [exact G|exact Hf|]. exact (parse_document_at_sound bi _ _ _ _ _ _ Hp). Qed.
 Print Assumptions C04_parse_keeps_store_good.
 
 Theorem C04_parse_fragment_keeps_store_good :
